@@ -10,7 +10,7 @@ ops    : add r n | remove r n | contains r n | grow r n | len r | blen r | cap r
          clone d s | diff a b | intersect a b | merge a b
          iter k r | next k | value k | iterall r | range r stop | all r stop | layout
          addn r start d count | removen r start d count   (count element operations on start, start+d, …)
-         string r
+         string r | reseq r stop1 n stop2   (one `All()` value ranged, `Add(n)`, ranged again)
 -/
 import Golib.Model.C16Bits
 
@@ -42,6 +42,7 @@ inductive Op where
   | layout
   | addn (r start d count : Nat) | removen (r start d count : Nat)
   | str (r : Nat)
+  | reseq (r : Nat) (a : Int) (n : Nat) (b : Int)
 deriving Repr, DecidableEq
 
 def two (f : Nat → Nat → Op) (a b : String) : Option Op := do
@@ -76,6 +77,12 @@ def parseOp (ts : List String) : Option Op :=
       pure (.all x y)
   | ["layout"] => some .layout
   | ["string", r] => r.toNat?.map .str
+  | ["reseq", r, a, n, b] => do
+      let r ← r.toNat?
+      let a ← a.toInt?
+      let n ← n.toNat?
+      let b ← b.toInt?
+      pure (.reseq r a n b)
   | ["addn", r, a, d, c] => do
       let r ← r.toNat?
       let a ← a.toNat?
@@ -236,6 +243,7 @@ def step1 (s : St) : Op → Res
   | .layout => .ok s (showLayout (s.regs.map fun o => o.words.length) [])
   | .addn _ _ _ _ => .bad
   | .removen _ _ _ _ => .bad
+  | .reseq _ _ _ _ => .bad
   | .str r =>
     -- `String()`: the same double loop as `Range` (skipping zero words), printed as `{a b c}`;
     -- dsz.Bits appends "\nLength: n" (the harness prints the newline as `|`)
@@ -254,7 +262,26 @@ def loopN (mk : Nat → Op) : (count : Nat) → St → (n d hits : Nat) → Res
     | .bad => .bad
     | .panic => .panic
 
+/-- three single operations in a row, answers joined by ` ; ` -/
+def seq3 (s : St) (o1 o2 o3 : Op) : Res :=
+  match step1 s o1 with
+  | .ok s1 x1 =>
+    match step1 s1 o2 with
+    | .ok s2 x2 =>
+      match step1 s2 o3 with
+      | .ok s3 x3 => .ok s3 (x1 ++ " ; " ++ x2 ++ " ; " ++ x3)
+      | .bad => .bad
+      | .panic => .panic
+    | .bad => .bad
+    | .panic => .panic
+  | .bad => .bad
+  | .panic => .panic
+
 def step (s : St) : Op → Res
+  -- `seq := b.All()` obtained ONCE, ranged (stop at `a`), then `b.Add(n)`, then the SAME `seq` value
+  -- ranged again (stop at `b`): `All` reads `b.set` when it is ranged, so the second range
+  -- enumerates the current content
+  | .reseq r a n b => seq3 s (.all r a) (.add r n) (.all r b)
   | .addn r a d c => if c = 0 then .bad else loopN (.add r) c s a d 0
   | .removen r a d c => if c = 0 then .bad else loopN (.remove r) c s a d 0
   | op => step1 s op
